@@ -1148,6 +1148,13 @@ sys_x86_64(struct os_init_data *ctl)
 	if (status != ADDRXLAT_OK)
 		return status;
 
+	/* Forget a kernel text method left over by a previous
+	 * initialization of the same translation system. Otherwise
+	 * set_pgt_fallback() keeps the stale offset whenever the text
+	 * offset cannot be determined this time.
+	 */
+	ctl->sys->meth[ADDRXLAT_SYS_METH_KTEXT].kind = ADDRXLAT_NOMETH;
+
 	meth = &ctl->sys->meth[ADDRXLAT_SYS_METH_PGT];
 	status = sys_set_layout(ctl, ADDRXLAT_SYS_MAP_HW,
 				(meth->param.pgt.pf.nfields == 6
